@@ -683,4 +683,66 @@ example : LayoutWs SPrefs.default ∧ LayoutWs minifiedPrefs ∧
   refine ⟨⟨by decide, by decide, by decide, by decide, by decide, by decide⟩,
     ⟨by decide, by decide, by decide, by decide, by decide, by decide⟩, by decide, by decide, by decide⟩
 
+/-! ### … and reparses to them (item level)
+
+The splitting of a text into items is the block parser's (kernels C02 / C04), so the reparse is stated on the items the
+written text consists of: `srcOf` / `vSrcOf ∘ vWritten` (`Lemmas/DeclText.lean`). -/
+
+/-- a written property is `name` `:` `value field` `priority` — the three fields of the source item `srcOfItem`
+gives for it (the value field carries the spacer after the colon and the blank before the priority) -/
+theorem property_text_fields (pf : SPrefs) (re : REnv) (p : Pty) (h : propTextP pf re p ≠ []) :
+    propTextP pf re p = nameText pf p ++ [58] ++ valueField pf re p ++ prioText pf p :=
+  propTextP_fields pf re p h
+
+/-- T10.8 (style block, reparse): if the front end reads every written declaration back as the same entry
+(`ReparseOk`: a condition on tokenizer / value grammar, the parameters of the model), then assigning the written items
+to ANY writable block is accepted and leaves exactly the written entries — same (name, value, priority), same order,
+nothing dropped or added — and the written comments. With T10.8 above: all entries, or the effective one per name. -/
+theorem cssText_reparse (env : Env) (pf : SPrefs) (re : REnv) (seq : List Item) (d0 : Decl) (hr : d0.readonly = false)
+    (hok : ∀ p ∈ props (declSeqP pf seq), propTextP pf re p ≠ [] → ReparseOk env pf re p) :
+    (setCssText env d0 (srcOf pf re (declSeqP pf seq))).out = .ok () ∧
+    (props (setCssText env d0 (srcOf pf re (declSeqP pf seq))).st.seq).map entryKey =
+      ((props (declSeqP pf seq)).filter (fun p => propTextP pf re p != [])).map entryKey ∧
+    nonProps (setCssText env d0 (srcOf pf re (declSeqP pf seq))).st.seq = writtenComments pf (declSeqP pf seq) := by
+  obtain ⟨r, hfold, h1, h2⟩ := reparse_fold env pf re (declSeqP pf seq) [] hok
+  unfold setCssText
+  simp only [hr, Bool.false_eq_true, if_false, hfold]
+  exact ⟨trivial, by simpa [props] using h1, by simpa [nonProps] using h2⟩
+
+/-- the hypothesis is satisfiable (`c: 2` under the minifying preferences, example front end) -/
+example : ∀ p ∈ props (declSeqP minifiedPrefs reparseWitness), propTextP minifiedPrefs REnv.default p ≠ [] →
+    ReparseOk exampleEnv minifiedPrefs REnv.default p := by
+  intro p hp _
+  have : p = { wf := true, nameSeq := [.str [99]], lit := [99], name := [99], val := ⟨[50], [50]⟩,
+               prioSeq := [], litPrio := [], prio := [] } := by
+    simpa [declSeqP, minifiedPrefs, reparseWitness, props] using hp
+  subst this
+  exact ⟨_, rfl, by decide, by decide⟩
+
+/-- T10.8 (variables block, reparse): for every block satisfying the invariant (every reachable one, `vars_run`),
+assigning the item sequence of the written block (`vWritten`: names as written, comments when kept) to ANY writable
+block is accepted and yields the written items; it denotes the same variables — always with literal names, and with
+`normalizedVarNames` whenever the keys are stable under `normalize` (a key that is not, e.g. `a\g`, is WRITTEN as the
+different identifier `ag`: the residual of listing normalised names, see `vars_reported_direct_needs_guard`). -/
+theorem vars_reparse (pf : SPrefs) (s s0 : Vars) (h : VInv s) (hr : s0.readonly = false)
+    (hk : pf.normalizedVarNames = true → KeysStable s) :
+    (vSetCssText s0 (vSrcOf (vWritten pf s.seq))).out = .ok () ∧
+    (vSetCssText s0 (vSrcOf (vWritten pf s.seq))).st.seq = vWritten pf s.seq ∧
+    (vSetCssText s0 (vSrcOf (vWritten pf s.seq))).st.vars = s.vars ∧
+    vSerialized (vSetCssText s0 (vSrcOf (vWritten pf s.seq))).st = vSerialized s := by
+  have hw : varsOf (vWritten pf s.seq) = varsOf s.seq := by
+    apply varsOf_vWritten
+    intro hp e he
+    exact hk hp e.1 (by rw [vKeys, h.1]; exact List.mem_map_of_mem he)
+  obtain ⟨b, hb, h1, h2⟩ := vReparse_fold (vWritten pf s.seq) {} (by
+    simp only [List.nil_append, hw, ← h.1]; exact h.2)
+  have e : vSetCssText s0 (vSrcOf (vWritten pf s.seq)) = ⟨{ s0 with seq := b.seq, vars := b.vars }, .ok ()⟩ := by
+    unfold vSetCssText
+    simp only [hr, Bool.false_eq_true, if_false, hb]
+  rw [e]
+  simp only [List.nil_append] at h1 h2
+  refine ⟨rfl, h1, by rw [h2, hw, h.1], ?_⟩
+  rw [vSerialized_eq, vSerialized_eq]
+  simp only [h1, hw]
+
 end CssVerif.C10
